@@ -221,6 +221,12 @@ def perform(step, objs):
         return a.move(v[0], v[1])
     if op == "scale":
         return a.scale(num(step["sx"]), num(step["sy"]))
+    if op == "rotate" and step.get("aform") in ("ndarray", "npfloat"):
+        # the angle as a numpy scalar or 0-d array (what a numpy user passes)
+        ang = np.array(float(num(step["angle"]))) if step["aform"] == "ndarray" else np.float64(float(num(step["angle"])))
+        if "degrees" in step and step["degrees"] is not None:
+            return a.rotate(ang, step["degrees"])
+        return a.rotate(ang)
     if op == "rotate":
         if "degrees" in step and step["degrees"] is not None:
             if step.get("dkw"):
